@@ -39,6 +39,7 @@ import (
 //@   ensures[C02,C05,C15] err == nil ==> forall(a, addr, k, bseq, !(a == seq(vmInput.CallerAddr) && k == Kesdt(seq(vmInput.Arguments[0]))) ==> St[a][k] == old(St)[a][k])
 //@   ensures[C04] err == nil && !readFailed && !vmInput.ReturnCallAfterError && seq(vmInput.CallerAddr) != seq(vmcommon.ESDTSCAddress) ==> !frozen(old(St), seq(vmInput.CallerAddr), Kesdt(seq(vmInput.Arguments[0]))) && !paused(old(St), Kesdt(seq(vmInput.Arguments[0])))
 //@   ensures[C15] err == nil ==> WFvalues(St)
+//@   ensures[C03,C04] err == nil && !readFailed ==> frozenKept(St, old(St))
 //@   modifies St, failed, readFailed, loadFailed
 
 // ---- ESDTLocalBurn ---------------------------------------------------------------------------------
@@ -58,6 +59,7 @@ import (
 //@   ensures[C02,C05,C15] err == nil ==> onlyChanged(St, old(St), seq(vmInput.CallerAddr), Kesdt(seq(vmInput.Arguments[0])))
 //@   ensures[C04] err == nil && !readFailed && !vmInput.ReturnCallAfterError && seq(vmInput.CallerAddr) != ESDTSC() ==> !frozen(old(St), seq(vmInput.CallerAddr), Kesdt(seq(vmInput.Arguments[0]))) && !paused(old(St), Kesdt(seq(vmInput.Arguments[0])))
 //@   ensures[C15] err == nil ==> WFvalues(St)
+//@   ensures[C03,C04] err == nil && !readFailed ==> frozenKept(St, old(St))
 //@   modifies St, failed, readFailed, loadFailed
 
 // ---- ESDTBurn --------------------------------------------------------------------------------------
@@ -76,6 +78,7 @@ import (
 //@   ensures[C02,C05,C15] err == nil ==> onlyChanged(St, old(St), seq(vmInput.CallerAddr), Kesdt(seq(vmInput.Arguments[0])))
 //@   ensures[C04] err == nil && !readFailed && !vmInput.ReturnCallAfterError && seq(vmInput.CallerAddr) != ESDTSC() ==> !frozen(old(St), seq(vmInput.CallerAddr), Kesdt(seq(vmInput.Arguments[0]))) && !paused(old(St), Kesdt(seq(vmInput.Arguments[0])))
 //@   ensures[C15] err == nil ==> WFvalues(St)
+//@   ensures[C03,C04] err == nil && !readFailed ==> frozenKept(St, old(St))
 //@   modifies St, failed, readFailed, loadFailed
 
 // ---- ESDTFreeze / ESDTUnFreeze / ESDTWipe ------------------------------------------------------------
@@ -550,12 +553,14 @@ func lemmaHandOverThenCreate(rt *esdtNFTCreateRoleTransfer, cr *esdtNFTCreate, o
 //@   ensures[C01,C02] err == nil && !readFailed && snd == dst ==> val(St, snd, K) == val(old(St), snd, K) - ite(isNil(acntSnd), 0, q) + ite(isNil(acntDst), 0, q)
 //@   ensures[C04] err == nil && !readFailed && !vmInput.ReturnCallAfterError && !isNil(acntSnd) && snd != ESDTSC() ==> !frozen(old(St), snd, K) && !paused(old(St), K)
 //@   ensures[C04] err == nil && !readFailed && !vmInput.ReturnCallAfterError && !isNil(acntDst) && dst != ESDTSC() && snd != dst && snd != SYS() ==> !frozen(old(St), dst, K) && !paused(old(St), K)
+//@   ensures[C03,C04] err == nil && !readFailed ==> frozenKept(St, old(St))
 //@   ensures[C09] err == nil ==> shardOf(dst) != 4294967295
 //@   ensures[C09] err == nil && !isNil(acntDst) && mustVerify(vmInput, 2) ==> payable(dst)
 //@   ensures[C10] err != nil && isNil(acntSnd) && !isNil(acntDst) && !failed && !readFailed && vmInput != nil && vmInput.CallValue != nil && bigval(vmInput.CallValue) == 0 && len(vmInput.Arguments) >= 2 && q > 0 && shardOf(dst) != 4294967295 ==> (mustVerify(vmInput, 2) && !payable(dst)) || (len(old(St)[dst][K]) != 0 && dType(old(St)[dst][K]) != 0) || (!vmInput.ReturnCallAfterError && dst != ESDTSC() && (frozen(old(St), dst, K) || paused(old(St), K)))
 //@   ensures[C01,C10] err == nil && isNil(acntDst) && isSC(snd) ==> has(out.OutputAccounts, dst) && seq(out.OutputAccounts[dst].OutputTransfers[0].Data) == wireOf("ESDTTransfer", vmInput.Arguments)
 //@   ensures[C01,C10] err == nil && isNil(acntDst) && !isSC(snd) ==> out.OutputAccounts == nil
 //@   ensures[C15] err == nil ==> WFvalues(St)
+//@   ensures[C10,C13] vmInput != nil ==> len(vmInput.Arguments) == old(len(vmInput.Arguments)) && forall(j, int, 0 <= j && j < len(vmInput.Arguments) ==> seq(vmInput.Arguments[j]) == old(seq(vmInput.Arguments[j]))) && seq(vmInput.CallerAddr) == old(seq(vmInput.CallerAddr)) && seq(vmInput.RecipientAddr) == old(seq(vmInput.RecipientAddr))
 //@   modifies St, failed, readFailed, loadFailed
 
 // ---- ESDTNFTTransfer --------------------------------------------------------------------------------------------------------------------
@@ -612,6 +617,7 @@ func lemmaHandOverThenCreate(rt *esdtNFTCreateRoleTransfer, cr *esdtNFTCreate, o
 //@   ensures[C04] err == nil && !readFailed && !vmInput.ReturnCallAfterError && senderSide && snd != ESDTSC() ==> !frozen(old(St), snd, Knft(tok, n)) && !paused(old(St), Kesdt(tok))
 //@   ensures[C04] err == nil && !readFailed && !vmInput.ReturnCallAfterError && !senderSide && rcv != ESDTSC() ==> !frozen(old(St), rcv, Knft(tok, dMNonce(a3))) && !paused(old(St), Kesdt(tok)) && !paused(old(St), Knft(tok, dMNonce(a3)))
 //@   ensures[C15] err == nil ==> WFvalues(St)
+//@   ensures[C10,C13] vmInput != nil ==> len(vmInput.Arguments) == old(len(vmInput.Arguments)) && forall(j, int, 0 <= j && j < len(vmInput.Arguments) ==> seq(vmInput.Arguments[j]) == old(seq(vmInput.Arguments[j]))) && seq(vmInput.CallerAddr) == old(seq(vmInput.CallerAddr)) && seq(vmInput.RecipientAddr) == old(seq(vmInput.RecipientAddr))
 //@   modifies St, failed, readFailed, loadFailed
 
 // ---- MultiESDTNFTTransfer ---------------------------------------------------------------------------------------------------------------
@@ -762,6 +768,7 @@ func lemmaHandOverThenCreate(rt *esdtNFTCreateRoleTransfer, cr *esdtNFTCreate, o
 //@   ensures[C09] err == nil && senderSide ==> shardOf(seq(vmInput.Arguments[0])) != 4294967295 && seq(vmInput.Arguments[0]) != snd && len(vmInput.Arguments[0]) == len(vmInput.CallerAddr)
 //@   ensures[C02,C05,C15] forall(a, addr, k, bseq, St[a][k] != old(St)[a][k] ==> ((senderSide && (a == snd || a == seq(vmInput.Arguments[0]))) || (!senderSide && a == rcv)) && isTokKey(k))
 //@   ensures[C15] err == nil ==> WFvalues(St)
+//@   ensures[C10,C13] vmInput != nil ==> len(vmInput.Arguments) == old(len(vmInput.Arguments)) && forall(j, int, 0 <= j && j < len(vmInput.Arguments) ==> seq(vmInput.Arguments[j]) == old(seq(vmInput.Arguments[j]))) && seq(vmInput.CallerAddr) == old(seq(vmInput.CallerAddr)) && seq(vmInput.RecipientAddr) == old(seq(vmInput.RecipientAddr))
 //@   modifies St, failed, readFailed, loadFailed
 
 // ---- pricing: every priced function takes its own entry of the schedule (C16), inside one write-locked section (C19) ----
